@@ -38,7 +38,7 @@ Section Mon.
   (* the injected subtrees: nodes whose chain of parents ends in a KInjected root *)
   Definition root_of (n : nat) : nat := match rev (ancestors p n) with r :: _ => r | [] => n end.
   Definition injected_node (n : nat) : bool := match n_kind (nd p (root_of n)) with KInjected => true | _ => false end.
-  Definition is_alarm (n : nat) : bool := match n_kind (nd p n) with KAlarm => true | _ => false end.
+  Definition is_alarm (n : nat) : bool := match n_kind (nd p n) with KAlarm | KMacro _ => true | _ => false end.
   Definition in_alarm (n : nat) : bool := is_alarm n || existsb is_alarm (ancestors p n).
   Definition is_blank (n : nat) : bool := match n_kind (nd p n) with KBlank _ => true | _ => false end.
   Definition all_nodes := seq 0 (length p).
